@@ -78,10 +78,10 @@ def run(tier):
     res = vlib.Result("C16", tier)
     rng = random.Random(vlib.seed())
     quick = tier == "quick"
-    scen = [mk(rng, quick) for _ in range(2500 if quick else 30000)]
+    scen = [mk(rng, quick) for _ in range(2500 if quick else 100000)]
     # concurrent: the same operation lists with the table updates in a goroutine of their own and two EmitSync callers
     conc = []
-    while len(conc) < (400 if quick else 5000):
+    while len(conc) < (400 if quick else 20000):
         sc = mk(rng, quick)
         if "where" in sc["meta"] or not any(o["op"] in ("upsert", "delete") for o in sc["ops"]):
             continue
